@@ -72,13 +72,13 @@ package l1infotreesync
 //@   props C11
 //@   requires p != nil && p.rollupExitTree != nil && p.rollupExitTree.Tree != nil && len(p.rollupExitTree.zeroHashes) == 33
 //@   requires rhtOK(rhtHas(p.rollupExitTree.Tree), rhtL(p.rollupExitTree.Tree), rhtR(p.rollupExitTree.Tree))
-//@   modifies rootHas(p.rollupExitTree.Tree), rootHash(p.rollupExitTree.Tree), rootBlock(p.rollupExitTree.Tree), rootPos(p.rollupExitTree.Tree), rhtHas(p.rollupExitTree.Tree), rhtL(p.rollupExitTree.Tree), rhtR(p.rollupExitTree.Tree), leafNow(p.rollupExitTree), stmtFail, upsertCalls, event.BlockNumber, event.RollupExitRoot
+//@   modifies rootHas(p.rollupExitTree.Tree), rootHash(p.rollupExitTree.Tree), rootBlock(p.rollupExitTree.Tree), rootPos(p.rollupExitTree.Tree), rootLastIdx(p.rollupExitTree.Tree), rhtHas(p.rollupExitTree.Tree), rhtL(p.rollupExitTree.Tree), rhtR(p.rollupExitTree.Tree), leafNow(p.rollupExitTree), stmtFail, upsertCalls, event.BlockNumber, event.RollupExitRoot
 //@   ensures[rht-content-addressed] rhtOK(rhtHas(p.rollupExitTree.Tree), rhtL(p.rollupExitTree.Tree), rhtR(p.rollupExitTree.Tree))
 //@   ensures[success-means-stored] result == nil ==> stmtFail == old(stmtFail)
 //@   ensures[zero-root-ignored] (event != nil && tx != nil && event.ExitRoot == ZeroHash) ==> result == nil && leafNow(p.rollupExitTree) == old(leafNow(p.rollupExitTree)) && rhtHas(p.rollupExitTree.Tree) == old(rhtHas(p.rollupExitTree.Tree)) && rootHas(p.rollupExitTree.Tree) == old(rootHas(p.rollupExitTree.Tree))
 //@   ensures[written-at-the-rollup-position] (result == nil && upsertCalls == old(upsertCalls) + 1) ==> leafNow(p.rollupExitTree) == upd(old(leafNow(p.rollupExitTree)), uint32(event.RollupID - 1), event.ExitRoot) && event.BlockNumber == blockNumber && desc(rhtL(p.rollupExitTree.Tree), rhtR(p.rollupExitTree.Tree), event.RollupExitRoot, uint32(event.RollupID - 1), 0) == event.ExitRoot
 //@   ensures[at-most-one-write] upsertCalls == old(upsertCalls) || upsertCalls == old(upsertCalls) + 1
-//@   ensures[skipped-only-if-unchanged] (result == nil && event != nil && tx != nil && event.ExitRoot != ZeroHash && upsertCalls == old(upsertCalls)) ==> desc(old(rhtL(p.rollupExitTree.Tree)), old(rhtR(p.rollupExitTree.Tree)), old(rootHash(p.rollupExitTree.Tree))[rootLastIdx(p.rollupExitTree.Tree)], uint32(event.RollupID - 1), 0) == event.ExitRoot
+//@   ensures[skipped-only-if-unchanged] (result == nil && event != nil && tx != nil && event.ExitRoot != ZeroHash && upsertCalls == old(upsertCalls)) ==> desc(old(rhtL(p.rollupExitTree.Tree)), old(rhtR(p.rollupExitTree.Tree)), old(rootHash(p.rollupExitTree.Tree))[old(rootLastIdx(p.rollupExitTree.Tree))], uint32(event.RollupID - 1), 0) == event.ExitRoot
 
 // ---- reorg of the L1 info tree store (C04, C14): one transaction deletes the blocks from the first reorged one on
 // (the event tables follow by ON DELETE CASCADE, assumed A5) and the versions of both trees recorded from that block on
@@ -133,6 +133,10 @@ package l1infotreesync
 //@   loop 0 invariant tx != nil && lastTx == tx && tx != old(lastTx) && txState(tx) == 0
 //@   loop 0 invariant l1InfoLeavesAdded == leafCalls - old(leafCalls) && 0 <= l1InfoLeavesAdded && l1InfoLeavesAdded <= rangeindex + 1 && (initialL1InfoIndex == (l1LastIndex + 1) % 4294967296 || initialL1InfoIndex == 0)
 //@   loop 0 invariant leafCalls != old(leafCalls) ==> lastLeafIdx == (initialL1InfoIndex + l1InfoLeavesAdded - 1) % 4294967296
+// the announced-root check (C11, C14): an iteration that handled a root announcement and went on has seen, as the tree's
+// last root inside the transaction, exactly the announced root at the announced leaf count; anything else leaves the loop
+// (halting the store, clause halts-only-with-inconsistency-error)
+//@   loop 0 step (typeIs(block.Events[rangeindex], Event) && unbox(block.Events[rangeindex], Event).UpdateL1InfoTreeV2 != nil) ==> (rootHash(p.l1InfoTree.Tree)[rootLastIdx(p.l1InfoTree.Tree)] == unbox(block.Events[rangeindex], Event).UpdateL1InfoTreeV2.CurrentL1InfoRoot && (rootLastIdx(p.l1InfoTree.Tree) + 1) % 4294967296 == unbox(block.Events[rangeindex], Event).UpdateL1InfoTreeV2.LeafCount)
 
 // ---- look-ups the claim flow (C12), the certificate proofs (C09) and the oracle (C15) rest on: assumed semantics
 // (A5), texts pinned
